@@ -673,3 +673,100 @@ Proof.
   destruct (step s c) as [[s' o]|] eqn:E; auto.
   pose proof (measure_step _ _ _ _ Hc E). specialize (IH s' Ht). lia.
 Qed.
+
+(* ------------------------------------------------------------------------------------------ *)
+(* A structural sufficient condition for no_reuse: at most 65536 frames on the connection       *)
+(* ------------------------------------------------------------------------------------------ *)
+Definition busyP (k : N) (s : st) : Prop :=
+  In k (map fst (rec s)) \/ In k (map snd (timers s)) \/ In k (map fst (buf (cplQ s))).
+
+Lemma busy_busyP : forall k s, busy k s = true -> busyP k s.
+Proof.
+  unfold busy, busyP; intros k s H.
+  apply orb_true_iff in H. destruct H as [H|H]; [apply orb_true_iff in H; destruct H as [H|H]|];
+    apply existsb_exists in H; destruct H as [[a b] [Hin He]]; simpl in He; apply N.eqb_eq in He.
+  - left. rewrite <- He. change a with (fst (a, b)). now apply in_map.
+  - right; left. rewrite <- He. change b with (snd (a, b)). now apply in_map.
+  - right; right. rewrite <- He. change a with (fst (a, b)). now apply in_map.
+Qed.
+
+(* every serial in use is one of the serials handed out so far *)
+Definition invR (s0 : N) (s : st) (tr : list obs) : Prop :=
+  forall k, busyP k s -> exists j, (j < length (serials tr))%nat /\ k = nth_serial s0 j.
+
+Lemma in_keys_del_sub : forall k k' l, In k' (map fst (del k l)) -> In k' (map fst l).
+Proof. intros k k' l H. apply in_keys_del in H. tauto. Qed.
+
+Lemma in_del_timer_snd : forall i k l, In k (map snd (del_timer i l)) -> In k (map snd l).
+Proof.
+  intros i k l H. apply in_map_iff in H. destruct H as [[a b] [He Hin]]. simpl in He; subst.
+  apply in_del_timer_sub in Hin. change k with (snd (a, k)). now apply in_map.
+Qed.
+
+Lemma nth_serial_shift : forall m k, nth_serial (next_serial k) m = next_serial (nth_serial k m).
+Proof. induction m as [|m IH]; intros k; simpl; auto. now rewrite IH. Qed.
+
+Lemma chain_final : forall l k k', chain k l = Some k' -> k' = nth_serial k (length l).
+Proof.
+  induction l as [|x l IH]; intros k k' H; simpl in *.
+  - now injection H as <-.
+  - destruct (x =? k); [|discriminate]. rewrite (IH _ _ H). apply nth_serial_shift.
+Qed.
+
+Lemma invR_step : forall s0 s tr c s' o, invE s0 s tr -> invR s0 s tr -> step s c = Some (s', o) ->
+  invR s0 s' (tr ++ o).
+Proof.
+  intros s0 s tr c s' o HE HR H k Hb.
+  pose proof (chain_final _ _ _ HE) as Hseq.
+  rewrite serials_app, app_length.
+  assert (Hold : busyP k s -> exists j, (j < length (serials tr) + length (serials o))%nat /\ k = nth_serial s0 j).
+  { intros Hk. destruct (HR k Hk) as [j [Hj Hkj]]. exists j. split; [lia | auto]. }
+  destruct c; step_inv H; unfold busyP in *; sproj; rewrite ?serials_stop in *;
+    rewrite ?map_app in *; cbn [serials length map fst snd app In] in *; rewrite ?in_app_iff in *;
+    cbn [In] in *;
+    try solve [apply Hold; tauto];
+    try solve [apply Hold; destruct Hb as [Hb|[Hb|Hb]]; eauto using in_keys_del_sub, in_del_timer_snd];
+    repeat match goal with
+           | H : _ \/ _ |- _ => destruct H as [H|H]
+           | H : False |- _ => destruct H
+           end;
+    try solve [apply Hold; eauto 6 using in_keys_del_sub, in_del_timer_snd];
+    try solve [exists (length (serials tr)); split; [lia | congruence]];
+    try solve [apply Hold; right; left;
+               match goal with Ht : timer_of _ _ = Some _ |- _ => apply timer_of_some_in in Ht;
+                 subst; change n with (snd (i, n)); now apply in_map end].
+  - rewrite N.eqb_refl in Hb. cbn [negb] in Hb. apply Hold. left. eauto using in_keys_del_sub.
+  - rewrite N.eqb_refl in Hb. cbn [negb] in Hb. apply Hold. left. eauto using in_keys_del_sub.
+  - apply Hold. right; right. rewrite E0. right; auto.
+  - apply Hold. right; right. rewrite E0. right; auto.
+  - subst k. apply Hold. right; left. apply timer_of_some_in in E.
+    change n with (snd (i, n)). now apply in_map.
+Qed.
+
+Theorem no_reuse_if_few_frames : forall s0 sched, s0 < 65536 ->
+  let tr := trace step (init s0) sched in
+  N.of_nat (length (serials tr)) <= 65536 -> no_reuse tr.
+Proof.
+  intros s0 sched Hs0 tr Hlen.
+  (* the invariant holds and there is no OReuse so far, as long as the bound holds for the prefix *)
+  pose (I := fun (s : st) (tr' : list obs) =>
+               invE s0 s tr' /\ (N.of_nat (length (serials tr')) <= 65536 -> invR s0 s tr' /\ no_reuse tr')).
+  assert (HI : I (final step (init s0) sched) tr).
+  { apply (run_invariant_all st choice obs step I).
+    - intros s tr' c s' o [HE HR] Hstep. split; [eapply invE_step; eauto|].
+      intros Hb. rewrite serials_app, app_length in Hb.
+      destruct HR as [HR Hn]; [lia|]. split; [eapply invR_step; eauto|].
+      apply no_reuse_app. split; auto.
+      (* OReuse only comes from WAct on a busy serial, which would be one of the earlier serials *)
+      intros Hin. pose proof (chain_final _ _ _ HE) as Hseq.
+      destruct c; step_inv Hstep; simpl in Hin; try tauto;
+        try (rewrite in_map_iff in Hin; destruct Hin as [x [Hx _]]; discriminate);
+        try solve [intuition discriminate];
+        match goal with Hbusy : busy (seq s) s = true |- _ =>
+          destruct (HR _ (busy_busyP _ _ Hbusy)) as [j [Hj Hk]] end;
+        rewrite Hseq in Hk; cbn [serials length app] in Hb;
+        symmetry in Hk; revert Hk; apply nth_serial_fresh; auto; lia.
+    - split; [reflexivity|]. intros _. split; [|intros []].
+      intros k [H|[H|H]]; destruct H. }
+  destruct HI as [_ HI]. apply HI. exact Hlen.
+Qed.
